@@ -41,6 +41,8 @@ pub enum Op {
     Raw(super::c14::Call),
     /// children of a coarse cell at resolution 29: a request every implementation must refuse
     Refused(gen::CellSpec),
+    /// lookup at point k of a small-step walk across a face edge (consecutive points a hair apart)
+    WalkLookup(u16, f64, f64, Vec<f64>, u8, u8),
 }
 
 pub fn op_json(o: &Op) -> Value {
@@ -60,6 +62,7 @@ pub fn op_json(o: &Op) -> Value {
         Op::Inverse(f, k, rho, off) => json!({"op": "inverse", "face": f, "k": k, "rho": rho, "off": off}),
         Op::Raw(c) => json!({"op": "raw", "call": super::c14::call_json(c)}),
         Op::Refused(c) => json!({"op": "refused", "c": gen::cellspec_json(c)}),
+        Op::WalkLookup(edge, t, log_d, steps, k, res) => json!({"op": "walk-lookup", "edge": edge, "t": t, "log_d": log_d, "steps": steps, "k": k, "res": res}),
     }
 }
 
@@ -81,6 +84,14 @@ pub fn op_from_json(v: &Value) -> Option<Op> {
         "inverse" => Op::Inverse(v["face"].as_u64()? as u8, v["k"].as_u64()? as u8, v["rho"].as_f64()?, v["off"].as_f64()?),
         "raw" => Op::Raw(super::c14::call_from_json(&v["call"])?),
         "refused" => Op::Refused(gen::cellspec_from_json(&v["c"])?),
+        "walk-lookup" => Op::WalkLookup(
+            v["edge"].as_u64()? as u16,
+            v["t"].as_f64()?,
+            v["log_d"].as_f64()?,
+            v["steps"].as_array()?.iter().map(|x| x.as_f64()).collect::<Option<Vec<_>>>()?,
+            v["k"].as_u64()? as u8,
+            v["res"].as_u64()? as u8,
+        ),
         _ => return None,
     })
 }
@@ -170,6 +181,13 @@ pub fn related_ops() -> BoxedStrategy<Vec<Op>> {
         .boxed()
 }
 
+/// A history that walks across a face edge in small steps, looking every point up in order.
+pub fn walk_history() -> BoxedStrategy<Vec<Op>> {
+    (any::<u16>(), 0.0f64..1.0, -10.0f64..-2.5, proptest::collection::vec(0.2f64..0.98, 2..12), prop_oneof![3 => 0u8..2, 1 => 2u8..30])
+        .prop_map(|(edge, t, log_d, steps, res)| (0..=steps.len() as u8).map(|k| Op::WalkLookup(edge, t, log_d, steps.clone(), k, res)).collect())
+        .boxed()
+}
+
 /// Result of an op in a comparable, bit-exact form.
 #[derive(Debug, Clone, PartialEq)]
 pub enum Out {
@@ -239,6 +257,16 @@ pub fn exec(op: &Op) -> Out {
             Some(Err(e)) => Out::Err(e),
         },
         Op::Refused(c) => ids(a5::cell_to_children(codec::encode(&c.cell()), Some(29))),
+        Op::WalkLookup(edge, t, log_d, steps, k, res) => {
+            let w = super::c18::SeamWalk { edge: *edge, t: *t, log_d: *log_d, steps: steps.clone(), res: 0 };
+            let pts = super::c18::seam_walk_points(&w);
+            let v = pts[(*k as usize) % pts.len()];
+            let (lon, lat) = crate::oracle::geo::lonlat_of_vec(v);
+            match a5::lonlat_to_cell(api::lonlat(lon, lat.clamp(-90.0, 90.0)), *res as i32 % 30) {
+                Ok(id) => Out::Bits(vec![id]),
+                Err(e) => Out::Err(e),
+            }
+        }
         Op::Inverse(f, k, rho, off) => {
             let g = std::f64::consts::PI / 5.0 * (*k as f64 + off);
             match api::inverse([rho * g.cos(), rho * g.sin()], *f) {
@@ -394,6 +422,150 @@ fn check_concurrent(hs: &[History], st: &mut Stats) -> Result<(), String> {
     Ok(())
 }
 
+/// Degenerate lookup inputs: the exact reported corners and edge midpoints of cells, where several
+/// candidate cells tie. A batch is executed in two fresh threads (whose per-thread hasher seeds,
+/// allocation history etc. differ) and the results must be identical; no per-call thread spawn, so
+/// many inputs per second.
+fn check_cross_thread_batch(cells: &[(gen::CellSpec, u8)], st: &mut Stats) -> Result<(), String> {
+    let mut inputs: Vec<(f64, f64, i32)> = Vec::new();
+    for (spec, dr) in cells {
+        let c = spec.cell();
+        let id = codec::encode(&c);
+        if let Ok(b) = api::boundary_lonlat(id, Some(2), false) {
+            for p in b {
+                // at the cell's own resolution and one or two finer/coarser (corners of coarse cells are
+                // corners of fine cells too)
+                let r = (c.res + (*dr as i32 % 3) - 1).clamp(0, 29);
+                inputs.push((p.0, p.1.clamp(-90.0, 90.0), r));
+                inputs.push((p.0, p.1.clamp(-90.0, 90.0), c.res));
+            }
+        }
+    }
+    let run = |inputs: &Vec<(f64, f64, i32)>, warm: usize| -> Vec<Result<u64, String>> {
+        // `warm` throw-away hash maps advance the thread's hasher seed differently in the two threads
+        let mut junk = Vec::new();
+        for i in 0..warm {
+            let mut m = std::collections::HashMap::new();
+            m.insert(i, i);
+            junk.push(m);
+        }
+        inputs.iter().map(|(lo, la, r)| a5::lonlat_to_cell(api::lonlat(*lo, *la), *r)).collect()
+    };
+    let (a, b) = std::thread::scope(|sc| {
+        let ia = &inputs;
+        let ha = sc.spawn(move || run(ia, 0));
+        let hb = sc.spawn(move || run(ia, 7));
+        (ha.join().unwrap(), hb.join().unwrap())
+    });
+    for (i, (x, y)) in a.iter().zip(b.iter()).enumerate() {
+        if x != y {
+            return Err(format!(
+                "thread effect: lonlat_to_cell(({}, {}), {}) returned {:x?} in one fresh thread and {:x?} in another (the point is an exact corner / edge midpoint of a cell)",
+                inputs[i].0, inputs[i].1, inputs[i].2, x, y
+            ));
+        }
+        st.eval();
+    }
+    st.nontrivial(&inputs.iter().map(|p| (p.0.to_bits(), p.1.to_bits(), p.2)).collect::<Vec<_>>());
+    st.add("degenerate-lookups-compared-across-threads", inputs.len() as u64);
+    Ok(())
+}
+
+thread_local! {
+    static EXIT_HOOK: std::cell::RefCell<Option<ExitHook>> = const { std::cell::RefCell::new(None) };
+}
+
+struct ExitHook {
+    ops: Vec<Op>,
+    tx: std::sync::mpsc::Sender<Vec<Out>>,
+}
+
+impl Drop for ExitHook {
+    fn drop(&mut self) {
+        // runs while the thread is shutting down, after thread-locals registered later were destroyed
+        let outs: Vec<Out> = self.ops.iter().map(|o| guarded(|| Ok(exec(o))).unwrap_or_else(Out::Err)).collect();
+        let _ = self.tx.send(outs);
+    }
+}
+
+/// Calls made while a thread shuts down (from the destructor of a thread-local that was registered
+/// before the library was first used on that thread) must give the same results as anywhere else.
+fn check_exit_hook(h: &History, st: &mut Stats) -> Result<(), String> {
+    let refs: Vec<Out> = h.ops.iter().map(|o| cold(o).0).collect();
+    let (tx, rx) = std::sync::mpsc::channel();
+    let ops = h.ops.clone();
+    std::thread::Builder::new()
+        .stack_size(16 << 20)
+        .spawn(move || {
+            // 1. register the hook first, 2. then use the library, 3. exit
+            EXIT_HOOK.with(|hk| *hk.borrow_mut() = Some(ExitHook { ops: ops.clone(), tx }));
+            for o in &ops {
+                let _ = guarded(|| Ok(exec(o)));
+            }
+        })
+        .unwrap()
+        .join()
+        .map_err(|_| "exit-hook thread panicked".to_string())?;
+    let got = rx.recv_timeout(std::time::Duration::from_secs(30)).map_err(|_| "calls made during thread shutdown never completed".to_string())?;
+    for (i, (g, r)) in got.iter().zip(refs.iter()).enumerate() {
+        if g != r {
+            return Err(format!(
+                "history effect: call #{} ({}) made while its thread was shutting down returned {} but {} as the first call of a fresh thread",
+                i, op_json(&h.ops[i]), describe(g), describe(r)
+            ));
+        }
+        st.eval();
+    }
+    st.hit("exit-hook-histories");
+    st.nontrivial(&("exit-hook", history_json(h).to_string()));
+    Ok(())
+}
+
+/// Hammer: T threads repeat the same few cheap calls many times in different orders; every result
+/// is compared with its reference. Exposes unsynchronised shared state with windows of nanoseconds.
+fn check_hammer(h: &History, st: &mut Stats) -> Result<(), String> {
+    let ops: Vec<Op> = h.ops.iter().filter(|o| matches!(o, Op::Parent(..) | Op::Children(..) | Op::Raw(..) | Op::Hex(..) | Op::Count(..) | Op::Area(..) | Op::Compact(..) | Op::Res0)).cloned().collect();
+    if ops.len() < 2 {
+        return Ok(());
+    }
+    let refs: Vec<Out> = ops.iter().map(|o| cold(o).0).collect();
+    let threads = 8;
+    let rounds = 400;
+    let gate = std::sync::atomic::AtomicUsize::new(0);
+    let results: Vec<Result<(), String>> = std::thread::scope(|sc| {
+        let hs: Vec<_> = (0..threads)
+            .map(|t| {
+                let (ops, refs, gate) = (&ops, &refs, &gate);
+                sc.spawn(move || -> Result<(), String> {
+                    gate.fetch_add(1, std::sync::atomic::Ordering::SeqCst);
+                    while gate.load(std::sync::atomic::Ordering::SeqCst) < threads {
+                        std::hint::spin_loop();
+                    }
+                    let n = ops.len();
+                    for r in 0..rounds {
+                        let i = (r * (2 * t + 1) + t) % n;
+                        let got = guarded(|| Ok(exec(&ops[i]))).unwrap_or_else(Out::Err);
+                        if got != refs[i] {
+                            return Err(format!(
+                                "thread effect: with {} threads repeating the same calls, {} returned {} in thread {} (round {}) but {} alone in a fresh thread",
+                                threads, op_json(&ops[i]), describe(&got), t, r, describe(&refs[i])
+                            ));
+                        }
+                    }
+                    Ok(())
+                })
+            })
+            .collect();
+        hs.into_iter().map(|h| h.join().unwrap_or_else(|_| Err("hammer thread panicked".into()))).collect()
+    });
+    for r in results {
+        r?;
+    }
+    st.add("hammer-calls", (threads * rounds) as u64);
+    st.nontrivial(&("hammer", history_json(h).to_string()));
+    Ok(())
+}
+
 /// Deterministic op list for the fresh-process race (same in parent and child).
 fn race_ops(seed: u64, thread: usize) -> Vec<Op> {
     let mut x = mix_seed(seed, "c13-race", thread) | 1;
@@ -402,6 +574,18 @@ fn race_ops(seed: u64, thread: usize) -> Vec<Op> {
         x >> 11
     };
     let mut v = Vec::new();
+    // the very first call of each thread is a cheap decode-type call on a deep cell (the first use of
+    // every lazily built table then falls into the same few hundred nanoseconds on all threads)
+    {
+        let u = |n: u64| (n % 1_000_000) as f64 / 1_000_000.0;
+        let _ = u;
+        let c = gen::CellSpec { res: 2 + (next() % 28) as i32, face: (next() % 12) as u8, quintant: (next() % 5) as u8, pos_class: 8, raw: next(), k: 0 };
+        v.push(match next() % 3 {
+            0 => Op::Parent(c, 1 + (next() % 2) as u8),
+            1 => Op::Children(c, 1),
+            _ => Op::Centre(c),
+        });
+    }
     for _ in 0..6 {
         let k = next() % 5;
         let u = |n: u64| (n % 1_000_000) as f64 / 1_000_000.0;
@@ -496,13 +680,22 @@ fn out_hash(o: &Out) -> u64 {
 pub fn child_race(args: &[String]) -> i32 {
     let seed: u64 = args[0].parse().unwrap_or(0);
     let t = 16;
-    let barrier = Arc::new(Barrier::new(t));
+    // odd seeds: the main thread has already used the library once (encode side only), so that the
+    // racing threads find some tables built and others not
+    if seed % 2 == 1 {
+        let _ = a5::lonlat_to_cell(api::lonlat(12.5, 41.9), 5);
+    }
+    // spin barrier: all threads leave within nanoseconds of each other
+    let gate = Arc::new(std::sync::atomic::AtomicUsize::new(0));
     let hs: Vec<_> = (0..t)
         .map(|i| {
-            let b = barrier.clone();
+            let b = gate.clone();
             std::thread::spawn(move || {
                 let ops = race_ops(seed, i);
-                b.wait();
+                b.fetch_add(1, std::sync::atomic::Ordering::SeqCst);
+                while b.load(std::sync::atomic::Ordering::SeqCst) < t {
+                    std::hint::spin_loop();
+                }
                 ops.iter().map(|o| out_hash(&guarded(|| Ok(exec(o))).unwrap_or_else(Out::Err))).collect::<Vec<u64>>()
             })
         })
@@ -517,7 +710,10 @@ pub fn child_race(args: &[String]) -> i32 {
 }
 
 fn check_race(seed: u64, st: &mut Stats) -> Result<(), String> {
-    let exe = std::env::current_exe().map_err(|e| format!("HARNESS: {}", e))?;
+    // the race children run the unoptimised `racy` build when it exists: slow code widens race windows
+    let root = std::env::var("A5VERIF_ROOT").unwrap_or_else(|_| "/verif".into());
+    let racy = std::path::PathBuf::from(root).join("target/racy/a5verif");
+    let exe = if racy.exists() { racy } else { std::env::current_exe().map_err(|e| format!("HARNESS: {}", e))? };
     let out = std::process::Command::new(exe).args(["child", "c13-race", &seed.to_string()]).output().map_err(|e| format!("HARNESS: {}", e))?;
     if !out.status.success() {
         return Err(format!("fresh-process race (seed {}): the process with 16 threads making their first calls simultaneously died: {:?}", seed, out.status));
@@ -564,7 +760,7 @@ pub fn run(tier: Tier, seed: u64) -> Report {
         "related-histories",
         seed,
         tier.pick(150, 5_000),
-        || (related_ops(), any::<u64>()).prop_map(|(ops, perm_seed)| History { ops, perm_seed }).boxed(),
+        || (prop_oneof![4 => related_ops(), 1 => walk_history()], any::<u64>()).prop_map(|(ops, perm_seed)| History { ops, perm_seed }).boxed(),
         check_history,
         history_json,
     ) };
@@ -615,7 +811,54 @@ pub fn run(tier: Tier, seed: u64) -> Report {
     if !rep.absorb("barrier-threads", r) {
         return rep;
     }
-    let k = tier.pick(10u64, 200u64);
+    // degenerate inputs across two fresh threads
+    let r = run_pbt(
+        "cross-thread-determinism",
+        seed,
+        tier.pick(300, 10_000),
+        || proptest::collection::vec((gen::cell_spec(2, 29), 0u8..3), 4..8).boxed(),
+        |cells, st| check_cross_thread_batch(cells, st),
+        |cells| json!(cells.iter().map(|(c, d)| json!([gen::cellspec_json(c), d])).collect::<Vec<_>>()),
+    );
+    if !rep.absorb("cross-thread-determinism", r) {
+        return rep;
+    }
+    // calls made while a thread shuts down
+    let r = run_pbt_workers(
+        "thread-exit-hook",
+        seed,
+        tier.pick(60, 2_000),
+        4,
+        || (proptest::collection::vec(ops(), 1..8), any::<u64>()).prop_map(|(ops, perm_seed)| History { ops, perm_seed }).boxed(),
+        check_exit_hook,
+        history_json,
+    );
+    if !rep.absorb("thread-exit-hook", r) {
+        return rep;
+    }
+    // hammer
+    let r = run_pbt_workers(
+        "hammer",
+        seed,
+        tier.pick(40, 1_000),
+        1,
+        || {
+            (proptest::collection::vec(prop_oneof![
+                3 => (gen::cell_spec(2, 29), prop_oneof![1 => Just(255u8), 3 => 1u8..6]).prop_map(|(c, d)| Op::Parent(c, d)),
+                1 => (gen::cell_spec(0, 28), 0u8..2).prop_map(|(c, d)| Op::Children(c, d)),
+                1 => proptest::collection::vec(gen::cell_spec(0, 6), 0..8).prop_map(Op::Compact),
+                1 => any::<u64>().prop_map(Op::Hex),
+            ], 3..10), any::<u64>())
+                .prop_map(|(ops, perm_seed)| History { ops, perm_seed })
+                .boxed()
+        },
+        check_hammer,
+        history_json,
+    );
+    if !rep.absorb("hammer", r) {
+        return rep;
+    }
+    let k = tier.pick(48u64, 1000u64);
     let r = run_exhaustive("fresh-process-races", k, |i, st| check_race(mix_seed(seed, "race", i as usize), st), |i| json!({"race_seed": mix_seed(seed, "race", i as usize)}));
     if let Some(v) = &r.violation {
         if v.message.starts_with("HARNESS:") {
@@ -632,6 +875,21 @@ pub fn replay(section: &str, case: &Value) -> Option<Result<(), String>> {
     Some(guarded(|| match section {
         "histories" | "related-histories" => check_history(&history_from_json(case).ok_or("bad case")?, &mut st),
         "process-cold-histories" => check_history_process_cold(&history_from_json(case).ok_or("bad case")?, &mut st),
+        "thread-exit-hook" => check_exit_hook(&history_from_json(case).ok_or("bad case")?, &mut st),
+        "hammer" => {
+            let h = history_from_json(case).ok_or("bad case")?;
+            for _ in 0..50 {
+                check_hammer(&h, &mut st)?;
+            }
+            Ok(())
+        }
+        "cross-thread-determinism" => {
+            let cells: Vec<(gen::CellSpec, u8)> = case.as_array().ok_or("bad case")?.iter().map(|x| Some((gen::cellspec_from_json(&x[0])?, x[1].as_u64()? as u8))).collect::<Option<Vec<_>>>().ok_or("bad case")?;
+            for _ in 0..5 {
+                check_cross_thread_batch(&cells, &mut st)?;
+            }
+            Ok(())
+        }
         "barrier-threads" => {
             let hs: Vec<History> = case.as_array().ok_or("bad case")?.iter().map(history_from_json).collect::<Option<Vec<_>>>().ok_or("bad case")?;
             // a scheduling-dependent failure may need several attempts to show again
